@@ -2,6 +2,8 @@
 package main
 
 import (
+	"sort"
+
 	"github.com/gotd/td/internal/verif/kit"
 	"github.com/gotd/td/internal/verif/lib/poolh"
 	"github.com/gotd/td/internal/verif/lib/sx"
@@ -29,16 +31,17 @@ func scenarios(thorough bool) []poolh.Params {
 		{Max: 2, Callers: 2, CallsEach: 1, Env: []string{"kill:2"}, Probe: true},
 	}
 	if thorough {
+		// (the thorough tier is time-capped: the smaller scenarios come first so that they complete)
 		s = append(s,
-			poolh.Params{Max: 1, Callers: 3, CallsEach: 1, Env: []string{"cancel:2", "kill:1"}, Probe: true},
-			poolh.Params{Max: 2, Callers: 3, CallsEach: 2, Env: []string{"cancel:1", "kill:2"}, Probe: true},
-			poolh.Params{Max: 2, Callers: 3, CallsEach: 1, SlowReady: true, Env: []string{"cancel:1", "cancel:2"}, Probe: true},
+			poolh.Params{Max: 1, Callers: 2, CallsEach: 2, UseErr: "app:2", Probe: true},
 			// a death with three parties: a waiter, and a later caller who creates the replacement and hands it over
 			poolh.Params{Max: 1, Callers: 3, CallsEach: 1, Env: []string{"kill:1"}, Probe: true},
 			poolh.Params{Max: 2, Callers: 3, CallsEach: 1, Env: []string{"kill:1"}, Probe: true},
 			poolh.Params{Max: 3, Callers: 3, CallsEach: 1, Env: []string{"kill:2"}, Probe: true},
 			poolh.Params{Max: 2, Callers: 3, CallsEach: 1, Env: []string{"cancel:2"}, UseErr: "ctx", Probe: true},
-			poolh.Params{Max: 1, Callers: 2, CallsEach: 2, UseErr: "app:2", Probe: true},
+			poolh.Params{Max: 1, Callers: 3, CallsEach: 1, Env: []string{"cancel:2", "kill:1"}, Probe: true},
+			poolh.Params{Max: 2, Callers: 3, CallsEach: 2, Env: []string{"cancel:1", "kill:2"}, Probe: true},
+			poolh.Params{Max: 2, Callers: 3, CallsEach: 1, SlowReady: true, Env: []string{"cancel:1", "cancel:2"}, Probe: true},
 		)
 	}
 	return s
@@ -73,6 +76,21 @@ func main() {
 			for k := 0; k < n; k++ {
 				units = append(units, unit{i, k, n})
 			}
+		}
+		if c.Thorough() {
+			// the thorough tier is time-capped and units start in list order: start the small drivers first, so that a capped
+			// run has completed every scenario that can complete (the large ones are the ones cut short)
+			weight := func(p poolh.Params) int {
+				w := p.Callers*p.CallsEach + len(p.Env)
+				if p.SlowReady {
+					w += 3
+				}
+				if p.Staged {
+					w += 3
+				}
+				return w
+			}
+			sort.SliceStable(units, func(i, j int) bool { return weight(scs[units[i].sc]) < weight(scs[units[j].sc]) })
 		}
 		if c.Fork(len(units), 16) {
 			return
